@@ -162,19 +162,21 @@ Definition int64_front (core : Z -> bool -> bytes -> N -> option (Z * N))
     let '(neg, r1, n1, stop1) :=
       if allowSign then
         match range with
-        | 45%N :: r => (true, r, 1%N, match r with [] => true | _ => false end)
-        | 43%N :: r => (false, r, 1%N, match r with [] => true | _ => false end)
-        | _ => (false, range, 0%N, false)
+        | s0 :: r => if (s0 =? 45)%N then (true, r, 1%N, match r with [] => true | _ => false end)
+                     else if (s0 =? 43)%N then (false, r, 1%N, match r with [] => true | _ => false end)
+                     else (false, range, 0%N, false)
+        | [] => (false, range, 0%N, false)
         end
       else (false, range, 0%N, false) in
     if stop1 then None else
     let '(base1, r2, n2) :=
       match r1 with
-      | 48%N :: x :: r => if ((base0 =? 0) || (base0 =? 16)) && tolower_is_x x
-                          then (16, r, (n1 + 2)%N) else (base0, r1, n1)
+      | z :: x :: r => if (z =? 48)%N && ((base0 =? 0) || (base0 =? 16)) && tolower_is_x x
+                       then (16, r, (n1 + 2)%N) else (base0, r1, n1)
       | _ => (base0, r1, n1)
       end in
-    let base := if base1 =? 0 then match r2 with 48%N :: _ => 8 | _ => 10 end else base1 in
+    let base := if base1 =? 0 then match r2 with z :: _ => if (z =? 48)%N then 8 else 10 | [] => 10 end
+                else base1 in
     core base neg r2 n2
   end.
 
